@@ -27,7 +27,7 @@ theorem forall_setNameObjs {Q1 Q2 : String → Val → Prop} (pname : String)
     exact ⟨step n v v' hq.1 h1, forall_setNameObjs pname step h2 hq.2⟩
 
 theorem forall_decodeObjs {Q2 : String → Val → Prop} {Q3 : String → FileObj → Prop} (f : Val → Out FileObj) (p : TPath)
-    (step : ∀ n v o, Q2 n v → f (pxVal (pnext p n) v) = .ok o → Q3 n o) :
+    (step : ∀ n v o q, Q2 n v → f (pxVal q v) = .ok o → Q3 n o) :
     ∀ {objs : KVs} {l : List (String × FileObj)}, decodeObjs f (pxKVs p true objs) = .ok l →
       (∀ e ∈ objs, Q2 e.1 e.2) → ∀ e ∈ l, Q3 e.1 e.2
   | [], l, h, _ => by simp [pxKVs, decodeObjs] at h; subst h; simp
@@ -38,7 +38,7 @@ theorem forall_decodeObjs {Q2 : String → Val → Prop} {Q3 : String → FileOb
     rename_i o r' h1 h2
     cases h
     simp only [List.forall_mem_cons]
-    exact ⟨step n v o hq.1 h1, forall_decodeObjs f p step h2 hq.2⟩
+    exact ⟨step n v o _ hq.1 h1, forall_decodeObjs f p step h2 hq.2⟩
 
 /-! ### one secret object -/
 
@@ -65,7 +65,7 @@ theorem setNameObj_ok {pname n : String} {v v' : Val} (h : setNameObj pname n v 
 /-! ### one config object -/
 
 theorem lookup_pxKVs (p : TPath) (skip : Bool) {k : String} (hk : isExtKey k = false) :
-    ∀ kvs : KVs, Val.lookup k (pxKVs p skip kvs) = (Val.lookup k kvs).map (pxVal (pnext p k))
+    ∀ kvs : KVs, Val.lookup k (pxKVs p skip kvs) = (Val.lookup k kvs).map (fun v => pxVal (childPath p k v) v)
   | [] => by simp [pxKVs, Val.lookup]
   | (k', v) :: r => by
     simp only [pxKVs]
@@ -137,7 +137,7 @@ theorem config_obj_clean {P : String → Prop} (hx : P extKey) {p : TPath} {kvs 
   -- what the decode read for `environment` and `content`
   have lk : ∀ k, k ≠ extKey → isExtKey k = false →
       Val.lookup k (withExtras (extrasOf (isUserDefined p) kvs) (pxKVs p (isUserDefined p) kvs)) =
-        (Val.lookup k kvs).map (pxVal (pnext p k)) := by
+        (Val.lookup k kvs).map (fun v => pxVal (childPath p k v) v) := by
     intro k h1 h2
     rw [lookup_withExtras_ne h1, lookup_pxKVs p _ h2]
   unfold decodeFields at hd
@@ -158,7 +158,7 @@ theorem config_obj_clean {P : String → Prop} (hx : P extKey) {p : TPath} {kvs 
           | none => simp [hv0] at hv
           | some v0 =>
             simp only [hv0, Option.map_some, Option.some.injEq] at hv
-            have hcl := AllStr_pxVal hx (pnext p "content") v0 (hc v0 hv0)
+            have hcl := AllStr_pxVal hx (childPath p "content" v0) v0 (hc v0 hv0)
             rw [hv] at hcl
             cases v <;> simp at h4
             · exact .inl h4
